@@ -8,6 +8,7 @@ package main
 import (
 	"fmt"
 	"go/constant"
+	"go/token"
 	"go/types"
 	"sort"
 	"strings"
@@ -208,6 +209,23 @@ func (cs *CountSpec) Enum(fn *ssa.Function, start Point, stop func(ssa.Instructi
 				cs.bump(st, cs.Instr(in), 1)
 			}
 			switch x := in.(type) {
+			case *ssa.Store:
+				// result slots spilled because of a defer, and local variables: remember what the path stored
+				if al, ok := x.Addr.(*ssa.Alloc); ok {
+					if k := retKind(x.Val); k != "other" {
+						st.known[al] = k
+					} else if k2, ok := st.known[x.Val]; ok {
+						st.known[al] = k2
+					} else {
+						delete(st.known, al)
+					}
+				}
+			case *ssa.UnOp:
+				if al, ok := x.X.(*ssa.Alloc); ok && x.Op == token.MUL {
+					if k, ok := st.known[al]; ok {
+						st.known[x] = k
+					}
+				}
 			case *ssa.Return:
 				ret := ""
 				if ci >= 0 && ci < len(x.Results) {
